@@ -229,8 +229,8 @@ impl SchedulerCore {
 
         // Find the first thread that is not marked as busy and schedule this task on it
         for &(ref busy_rc, ref thread) in threads.iter() {
-            if let Ok(mut busy) = busy_rc.try_lock() {
-                // If the busy lock is held, then we consider the thread to be busy
+            if let Ok(mut busy) = busy_rc.lock() {
+                // The busy lock is only held while a thread decides whether or not it has more work to do, so wait for that decision
                 if !*busy {
                     // Clone the busy mutex so we can return this thread to readiness
                     let also_busy =  busy_rc.clone();
